@@ -220,6 +220,11 @@ impl Check for C03Check {
                 classify(&out, &format!("{}#{}", fam, n), ctx);
                 ctx.class("scaling");
             }
+            (_, Input::Text(s)) => {
+                ctx.render(|| format!("{:?}", s));
+                let out = run_pipeline(s, ctx);
+                classify(&out, s, ctx);
+            }
             _ => {}
         }
     }
